@@ -35,6 +35,11 @@ from struct import pack, unpack
 from lib import vfmt
 
 PROPERTY = 'C11'
+SOURCE_IMPORTS = ['ScalesModel.Model.TagPool']
+SOURCE_CONSTANTS = {
+    'Scales.TagPool.Pool.init.next': ('from scales.mux.sink import TagPool', "TagPool(10, 's', 'h')._next"),
+    'Scales.TagPool.Pool.init.free.length': ('from scales.mux.sink import TagPool', "len(TagPool(10, 's', 'h')._set)"),
+}
 COMPONENT = 'tagpool'
 QUICK = dict(gen=1600)
 THOROUGH = dict(gen=40000)
